@@ -54,7 +54,7 @@ def gen_sequences(ctx):
 
 
 def correspondence(ctx):
-    ctx.rule = ("token family: sequences of (value, type) incl. non-ASCII values, empty values, values of 254/255/256 characters and bytes, any type byte; "
+    ctx.rule = ("token family: sequences of (value, type) incl. non-ASCII values, empty values, values of 254/255/256 characters and bytes, any type byte, combining marks, characters outside the BMP, ZWJ sequences, sequences of 128..1000 tokens, sequences whose atoms all share one or two values; "
                 "plus every password produced by the chargen family (and wlgen in C04/C05), whose Kind/MakeIndices/Tokenize round trip is part of the "
                 "compared observables. Non-trivial = distinct sequence containing a non-ASCII, empty or >= 254-character value, or of mixed types.")
     cases = []
